@@ -140,6 +140,36 @@ func ruleDeclaredOrder(c *eng.Ctx) {
 				}
 			})
 		}
+		if !okRel {
+			// the table kept as a list of (id, target) pairs and searched: some comparison sets an entry of the
+			// table against the sheet's r:id
+			for _, h := range cluster {
+				eng.Instrs(h, false, func(in ssa.Instruction) {
+					cmp, ok := in.(*ssa.BinOp)
+					if !ok || cmp.Op != token.EQL {
+						return
+					}
+					for _, pair := range [][2]ssa.Value{{cmp.X, cmp.Y}, {cmp.Y, cmp.X}} {
+						fromTable := false
+						for v := range eng.Slice(pair[0], nil) {
+							if ia, ok := v.(*ssa.IndexAddr); ok {
+								if fr, ok := eng.LoadOfField(ia.X); ok && fr.Field == "sheetRels" {
+									fromTable = true
+								}
+							}
+						}
+						if !fromTable {
+							continue
+						}
+						for v := range eng.SliceInter(pair[1], nil, cluster) {
+							if f, ok := eng.AsField(v); ok && f.Field == "RID" {
+								okRel = true
+							}
+						}
+					}
+				})
+			}
+		}
 		c.Check(okRel, R, "xlsx.(*Reader).parseWorksheets#relationship", fn.Pos(), "part path resolved through the sheet's relationship id", "the worksheet part is not looked up through the declared sheet's r:id")
 	}
 	// PPTX
